@@ -31,7 +31,12 @@ def _suffix():
 def run_harness(ctx, h, script):
     suf = _suffix()
     lines = [l for l in script.splitlines() if l.strip() and not l.startswith("env") and not l.startswith("#")]
-    rc, impl, err = ctx.run_lines(h, "\n".join(lines) + "\n", timeout=120, env=HENV, args=(suf,))
+    try:
+        rc, impl, err = ctx.run_lines(h, "\n".join(lines) + "\n", timeout=120, env=HENV, args=(suf,))
+    except FileNotFoundError:
+        # the shared cache's garbage collection (vlib/build._gc) removed the binary during a long run
+        h = ctx.harness("c19")
+        rc, impl, err = ctx.run_lines(h, "\n".join(lines) + "\n", timeout=120, env=HENV, args=(suf,))
     shutil.rmtree("/tmp/verif-c19-" + suf, ignore_errors=True)
     return lines, rc, impl, err
 
@@ -805,7 +810,7 @@ def oracle(ops, impl):
             if t[0] == "gone":
                 for l in fsl:
                     call, paths = fs_paths(l)
-                    if call not in RELEASE and not (call == "unlink" and paths[0] in cn["up"]):
+                    if call not in RELEASE and not (call == "unlink" and (paths[0] in cn["up"] or paths[0] == b"")):
                         return "connection teardown performed %r" % l
                 if wl:
                     return "data sent during teardown: %r" % wl[0]
@@ -829,7 +834,7 @@ def oracle(ops, impl):
                     call, paths = fs_paths(l)
                     if call in RELEASE or call in ("read", "write"):
                         continue
-                    cleanup = call == "unlink" and paths and paths[0] in cn["up"]
+                    cleanup = call == "unlink" and paths and (paths[0] in cn["up"] or paths[0] == b"")
                     if not gate and not cleanup:
                         return "TightVNC extension not enabled for c%d (ext=%s enabled=%d viewOnly=%s) but %r" % (cid, cn["tight"], ten, cn["view"], l)
                     for p in paths:
@@ -872,7 +877,7 @@ def oracle(ops, impl):
                     call, paths = fs_paths(l)
                     if call in RELEASE:
                         continue
-                    cleanup = call == "unlink" and paths and paths[0] in cn["up"]
+                    cleanup = call == "unlink" and paths and (paths[0] in cn["up"] or paths[0] == b"")
                     if cleanup:
                         continue
                     if permit != 1:
@@ -948,6 +953,10 @@ def run(ctx):
     CH = 500
     for base in range(0, len(scripts), CH):
         part = scripts[base:base + CH]
+        try:
+            os.utime(h)          # keep the binary "recent" for the shared cache's garbage collection
+        except OSError:
+            h = ctx.harness("c19")
         results = common.pmap(lambda sc: two_pass(ctx, h, d, sc[1], "filexfer." + sc[0].split(":")[0]), part)
         for (name, script), (ops, impl, model, f) in zip(part, results):
             evals += 1
@@ -1005,7 +1014,11 @@ def run(ctx):
     }
 
 
-PARTIAL = []
+PARTIAL = [
+    "teardown_releases_recorded_partial: for the TightVNC extension's uploadFD/downloadFD only 'what the client record holds is released at teardown' is a theorem; 'no TightVNC handler drops a descriptor without closing it' is not proved (checked on every run by the `fds` observations and the oracle)",
+    "transfer_dies_with_connection / descriptors_accounted (full strength, all sessions) are for clients that do not use the TightVNC extension (XInv contains tightExt = false)",
+    "that teardown (`cleanup`) calls are made only by closeClient/reapClient is by construction of the model, not a theorem; lexical confinement assumes a symlink-free tree and '/'-free directory entry names",
+]
 ASSUMPTIONS = [
     "symlink-free file system below the TightVNC root (lexical confinement)",
     "socket writable and peer reading while a message is processed (no short writes); malloc succeeds",
